@@ -890,6 +890,20 @@ func (t *fnTrans) applyContract(fc *FuncContract, key string, sig *types.Signatu
 		}
 		env.vars[names[i]] = bound{Val{T: t.term(v), IfaceP: v.IfaceP, IfaceT: v.IfaceT, Fn: v.Fn, Bnd: v.Bnd}, argTys[i]}
 	}
+	if fn != nil && len(fn.FreeVars) > 0 && len(args) == len(fn.Params)+len(fn.FreeVars) {
+		// static call of a closure: its contract names the captured variables; a binding is the address of the captured cell,
+		// so the name means the cell's content at the call (the meaning it has when the closure body itself is verified)
+		for i, fv := range fn.FreeVars {
+			a := args[len(fn.Params)+i]
+			if pt, ok := fv.Type().(*types.Pointer); ok {
+				p := a.P
+				if p == nil {
+					p = &Path{Ref: t.term(a), Typ: pt.Elem()}
+				}
+				env.vars[fv.Name()] = bound{Val{P: p, T: ""}, pt.Elem()}
+			}
+		}
+	}
 	short := key
 	if fn != nil {
 		short = t.eng.displayName(fn)
@@ -1149,6 +1163,13 @@ func (t *fnTrans) spawn(in *ssa.Go) {
 	}
 	if fc == nil {
 		fc, _ = t.eng.contracts.lookupExtern(key, t.callerPkgPath())
+	}
+	if fc != nil && !fc.Extern {
+		// the goroutine's body is verified as a function of its own: the spawner's property depends on that proof too
+		if t.spawned == nil {
+			t.spawned = map[string]*FuncContract{}
+		}
+		t.spawned[key] = fc
 	}
 	if fc == nil || len(fc.OnSpawn) == 0 {
 		return
